@@ -1,4 +1,5 @@
 import CacheVerif.Props.C11
+import CacheVerif.Proofs.LeafBits
 /-!
 # C10 — keys are matched by Go equality for every comparable key type
 
@@ -34,6 +35,28 @@ theorem C10_total_collision_Map (seeds : Nat → BitVec 64) (ops : List (MOp K V
     RunRel ([] : AMap K V) ops
       (run mapVariant ⟨fun _ _ => 0, seeds⟩ (new mapVariant ⟨fun _ _ => 0, seeds⟩ 0 false) ops).2 :=
   C11_Map _ 0 false ops (by rw [C11_default_len _ _ _ _ (by decide)]; decide)
+
+/-! ### the packed words never hide a present key (leaf lemmas over the machine-translated bit code) -/
+
+/-- `MapOf`: a slot whose meta byte equals the searched key's `h2` is always among the SWAR candidates
+(`markZeroBytes` has no false negatives), so the search by `==` over candidates finds every present key -/
+theorem C10_meta_no_false_negative (m : BitVec 64) (b : BitVec 8) (i : Nat) (hi : i < 5)
+    (hm : Proofs.LeafBits.getByte m i = b) :
+    ((Gen.markZeroBytes (m ^^^ Gen.broadcast b)) &&& Gen.metaMask).getLsbD (8 * i + 7) = true :=
+  Proofs.LeafBits.candidate_of_meta m b i hi hm
+
+/-- an occupied slot's meta byte is never mistaken for an empty one -/
+theorem C10_h2_never_empty (h : BitVec 64) : Gen.h2 h ≠ Gen.emptyMetaSlot := Proofs.LeafBits.h2_ne_empty h
+
+/-- `Map`: the slot a key was stored in always matches that key's top hash -/
+theorem C10_tophash_no_false_negative (h w : BitVec 64) (i : Nat) (hi : i < 3) :
+    Gen.topHashMatch h (Gen.storeTopHash h w i) i = true := Proofs.LeafBits.topHashMatch_store h w i hi
+
+/-- storing or erasing one slot's bits never changes what another slot matches -/
+theorem C10_slots_independent (h h' w : BitVec 64) (i j : Nat) (hi : i < 3) (hj : j < 3) (hij : i ≠ j) :
+    Gen.topHashMatch h' (Gen.storeTopHash h w i) j = Gen.topHashMatch h' w j ∧
+    Gen.topHashMatch h' (Gen.eraseTopHash w i) j = Gen.topHashMatch h' w j :=
+  ⟨Proofs.LeafBits.topHashMatch_store_other h h' w i j hi hj hij, Proofs.LeafBits.topHashMatch_erase_other h' w i j hi hj hij⟩
 
 /-! ### Non-vacuity: six fully colliding keys, a delete in the first bucket, a survivor behind the hole -/
 def collEnv : Env Nat := { hash := fun _ _ => 0, seeds := fun _ => 0 }
